@@ -28,24 +28,34 @@ LEVEL = "proof"
 ENGINES = ["lean-model", "purediff"]
 LEVEL_TEXT = (
     "Lean theorems for ALL well-formed JSON values (mutual structural induction over J, no depth/size bound), full strength: "
-    "diff_self_empty; diff_empty_iff (diff a b = [] iff a ≈ b, ≈ = Python == modulo null-valued object keys); apply_diff "
-    "(applyDiff (diff a b) a ≈ b); reduce_exact (reduce (diff a b) path = diff (a at path) (b at path), as lists, every path) with "
-    "corollaries reduce_apply / reduce_empty_iff; essence, every storage configuration and body: status_invisible, "
-    "system_metadata_invisible / finalizers_invisible, marked_annotation_invisible (own and other operators' annotations under a "
-    "marked prefix: set/change/remove) and first_annotation_write_invisible (annotations mapping absent -> present), payload_exact + essence_injective_on_payload + essence_wf + payload_change_detected, ordinary_annotation_kept / marked_annotation_dropped (filter level). Proved negations with witnesses: "
-    "bool_int_witness (F7), extra_status_witness (F8), multi_drs_witness (F9), marker_first_write_witness, null_absent_witness. "
-    "NOT proved in Lean (tie + oracle only, listed at the end of Props/C04.lean): own keys under an unmarked custom prefix "
-    "(exact-key / progress.clear route) at essence level; label and "
-    "annotation changes reaching the diff at essence level. "
+    "diff_self_empty; diff_empty_iff (diff a b = [] iff a ≈ b, ≈ = Python == modulo null-valued object keys); apply_diff; "
+    "reduce_exact (reduce (diff a b) path = diff (a at path) (b at path), as lists, every path) + reduce_apply / reduce_empty_iff; "
+    "essence, every storage configuration and body: status_invisible, system_metadata_invisible (incl. finalizers), "
+    "marked_annotation_invisible (one key under a marked prefix), prefix_group_invisible (a whole operator's batch under one prefix) "
+    "with first_custom_prefix_write_invisible (records + kopf-managed marker onto existing annotations) and "
+    "first_annotation_write_invisible (annotations mapping absent -> present); payload_exact, label_exact, annotation_exact "
+    "(closed form of the metadata stanza through all stages incl. Multi and progress clear) and change_detected / "
+    "payload_change_detected / label_change_detected / ordinary_annotation_change_detected (changed, added, removed), essence_wf, "
+    "essence_injective_on_payload; keys_depend_only_on_body (make_keys is a function of the body served). "
+    "Partial with exact guard + proved negation: own_key_unmarked_invisible_partial (own exact key / progress-prefix key under an "
+    "UNMARKED prefix is invisible — diff of the essences empty — for a single AnnotationsDiffBaseStorage; false for "
+    "MultiDiffBaseStorage: multi_drs_witness, known finding C04-F9). Other proved negations: bool_int_witness (F7), "
+    "extra_status_witness (F8, guards ExtraAvoids/ExtraAnnOK/MetaPlain), marker_first_write_witness, null_absent_witness. "
+    "Oracle/tie only (no theorem): label/annotation exactness when a handler field or an ignored/storage field starts with "
+    "`metadata` (outside MetaPlain); the unmarked-prefix route for StatusDiffBaseStorage/Multi without DRS. "
     "Tie: differential run of the real diffs.diff/reduce, DiffBaseStorage.build (+Annotations/Status/Multi), ProgressStorage.clear "
-    "(Annotations/Status/NoWrite/Multi/Smart), built with the real constructors, against the model; the Lean applier and ≈ are tied "
-    "to the oracle's Python applier and equivalence as well.")
-TIE = "D (differential: real diff/reduce/build/clear vs. the Lean model) + constants read from the AST"
+    "(Annotations/Status/NoWrite/Multi/Smart) and make_keys, built with the real constructors, against the model — on generated "
+    "bodies, on the bodies after every own write, and on ONE shared storage instance serving sequences of objects of mixed "
+    "marking classes; the Lean applier and ≈ are tied to the oracle's Python applier and equivalence as well.")
+TIE = ("D (differential: real diff/reduce/build/clear/make_keys vs. the Lean model, incl. post-write bodies and shared-storage "
+       "sequences) + constants read from the AST")
 THEOREMS: list[tuple[str, str]] = []     # filled below from THEOREM_NAMES
 RULE = ("seeded, type-directed: Kubernetes-shaped bodies (nesting <= 5, empty containers, nulls, unicode keys/values, "
         "booleans next to 0/1, annotation names with and without kopf prefixes/markers), b = 0..3 point mutations of a "
         "(or independent), field paths taken from either side or random; storage configurations from the real "
-        "constructors x handler ids x own writes x single foreign edits; a case is distinct by its canonical input and "
+        "constructors x handler ids x own writes (incl. another Kopf operator's) x single foreign edits; sequences: one shared "
+        "diff-base + progress storage serving Deployment / its ReplicaSet (annotations copied down) / plain object / other "
+        "ReplicaSet in random orders, each compared with a fresh storage; a case is distinct by its canonical input and "
         "non-trivial when the diff is non-empty / the essence dropped or kept something / an error branch was hit")
 TRUSTED = ["harness/props/c04.py: the Python oracle (own applier, own RFC 7386 merge, strict JSON equality)",
            "the configuration of the model is read off the real storage objects' attributes (prefix, key, v1, field, ignored_fields)",
@@ -54,16 +64,23 @@ ASSUMPTIONS = ["numbers are integers (no floats in generated bodies)",
                "metadata.annotations is absent or a mapping (Kubernetes schema); other shapes answer `unmodelled` and are not generated",
                "annotations under the operator's own configured prefixes are reserved for the operator (a foreign annotation squatting "
                "there is not an 'ordinary annotation'; it disappears from the essence once the kopf-managed marker is written)",
-               "MultiDiffBaseStorage/MultiProgressStorage are modelled flat (no Multi inside Multi)"]
+               "MultiDiffBaseStorage/MultiProgressStorage are modelled flat (no Multi inside Multi)",
+               "label_exact/annotation_exact/…_change_detected and own_key_unmarked_invisible_partial assume MetaPlain: no handler "
+               "field and no ignored/storage field starts with `metadata` (otherwise oracle + tie only)",
+               "the shared-storage sequence oracle compares with a fresh storage per object: it sees state carried between objects, "
+               "not a defect present in fresh and shared storages alike (those are the per-body oracle's subject)"]
 
 THEOREM_NAMES = [
     "diff_self_empty", "diff_empty_iff", "apply_diff", "reduce_exact", "reduce_apply", "reduce_empty_iff",
     "bool_int_witness", "null_absent_witness",
-    "status_invisible", "status_removal_invisible", "system_metadata_invisible", "finalizers_invisible",
-    "marked_annotation_invisible", "first_annotation_write_invisible", "marker_first_write_witness",
-    "payload_exact", "essence_injective_on_payload", "essence_wf", "payload_change_detected",
-    "ordinary_annotation_kept", "marked_annotation_dropped",
-    "extra_status_witness", "multi_drs_witness",
+    "status_invisible", "status_removal_invisible", "system_metadata_invisible",
+    "marked_annotation_invisible", "prefix_group_invisible", "first_custom_prefix_write_invisible",
+    "first_annotation_write_invisible", "marker_first_write_witness",
+    "own_key_unmarked_invisible_partial", "multi_drs_witness", "extra_status_witness",
+    "payload_exact", "essence_injective_on_payload", "essence_wf",
+    "change_detected", "payload_change_detected", "label_exact", "annotation_exact",
+    "label_change_detected", "ordinary_annotation_change_detected",
+    "keys_depend_only_on_body",
 ]
 
 QUICK_PAIRS, THOROUGH_PAIRS = 5000, 300000
@@ -208,7 +225,8 @@ ANN_NAMES = ["plain", "note", "example.com/owner", "other.io/kopf-managed", "oth
              "kopf.zalando.org/kopf-managed", "sub.kopf.zalando.org/x", "notkopf.zalando.org.evil/x", "xkopf.zalando.org/y",
              "kubectl.kubernetes.io/last-applied-configuration", "kubectl.kubernetes.io/restartedAt",
              "/kopf-managed", "/x", "a/", "kopf-managed", "zalando.org/x", "my-op.example.com/user-option",
-             "my-op.example.com/kopf-managed", "kopf.dev/state", "ünï.example/kopf-managed", "ünï.example/π", "x/y"]
+             "my-op.example.com/kopf-managed", "kopf.dev/state", "kopf.dev/last-handled-configuration-ofDRS",
+             "kopf.zalando.org/last-handled-configuration-ofDRS", "my-op.example.com/lhc-ofDRS", "ünï.example/kopf-managed", "ünï.example/π", "x/y"]
 
 
 def gen_annotations(rng: random.Random) -> dict:
@@ -922,6 +940,8 @@ def eval_ess_case(K: dict, case: dict, out: Out) -> None:
                 break
             out.count("own_writes", w["w"] + ("" if written else " (empty patch)"))
             res2 = real_essence(K, ds, ps, nb, extra)
+            out.ask("diffbase.build + progress.clear (after an own write)", ["C04.essence", mcfg, mextra, nb], res2,
+                    dict(replay, write=w, body=nb))
             overlap = any(overlaps(parse_field(x), wp) for x in extra for wp in written)
             rp = dict(replay, write=w, body_before=cur, body_after=nb, essence_before=E, essence_after=res2)
             bad = res2[0] != "ok" or not strict_eq(res2[1], E)
@@ -979,6 +999,139 @@ def classify_own(K: dict, case: dict, ds: Any, body: dict, w: dict) -> dict:
 
 
 # ------------------------------------------------------------------------------------------------
+# ONE storage instance serving a SEQUENCE of objects of mixed marking classes
+
+SIG_SEQ = {"site": "StorageKeyFormingConvention.make_keys",
+           "shape": "keys/old/diff of an object depend on the objects the storage served before"}
+
+
+def _seq_objects(rng: random.Random) -> dict[str, dict]:
+    spec = {"replicas": rng.choice([1, 2, 3]), "template": {"image": rng.choice(["a:1", "b:2"])}}
+
+    def obj(kind: str, name: str, owners: list[str] | None, extra: dict | None = None) -> dict:
+        m: dict[str, Any] = {"name": name, "namespace": "ns", "uid": "u-" + name, "resourceVersion": "1"}
+        if owners is not None:
+            m["ownerReferences"] = [{"kind": k, "name": "o-" + k.lower(), "uid": "o1", "apiVersion": "apps/v1"} for k in owners]
+        if extra:
+            m.update(copy.deepcopy(extra))
+        return {"apiVersion": "apps/v1", "kind": kind, "metadata": m, "spec": copy.deepcopy(spec)}
+    user = {"annotations": {"note": "user"}} if rng.random() < 0.5 else None
+    return {"deploy": obj("Deployment", "d", None, user),
+            "rs-of-deploy": obj("ReplicaSet", "d-abc", ["Deployment"], {"labels": {"app": "x"}} if rng.random() < 0.5 else None),
+            "plain": obj("KopfExample", "p", None, user),
+            "rs-other": obj("ReplicaSet", "r", rng.choice([["Job"], [], ["Other", "Job"]]))}
+
+
+def gen_seq_case(rng: random.Random) -> dict:
+    kw: dict[str, Any] = {}
+    if rng.random() < 0.5:
+        kw["prefix"] = rng.choice(["kopf.zalando.org", "my-op.example.com", "op.kopf.zalando.org"])
+    if rng.random() < 0.3:
+        kw["key"] = rng.choice(["lhc", "k" * 64, "last-handled-configuration"])
+    if rng.random() < 0.3:
+        kw["v1"] = rng.random() < 0.5
+    pkw: dict[str, Any] = {}
+    if "prefix" in kw and rng.random() < 0.8:
+        pkw["prefix"] = kw["prefix"]
+    names = ["deploy", "rs-of-deploy", "plain", "rs-other"]
+    order = rng.sample(names, rng.choice([2, 3, 4]))
+    if "rs-of-deploy" not in order:
+        order.insert(rng.randrange(len(order) + 1), "rs-of-deploy")
+    order += rng.sample(order, rng.choice([0, 1, 2]))          # some objects come round again
+    return {"kind": "sequence", "diffbase": {"cls": "annotations", "kw": kw},
+            "progress": {"cls": rng.choice(["smart", "annotations"]), "kw": pkw},
+            "order": order, "oseed": rng.getrandbits(32)}
+
+
+def _observe(K: dict, ds: Any, ps: Any, body: dict) -> dict:
+    B = K["bodies"].Body
+    keys = list(ds.make_keys(ds.key, body=B(body)))
+    pkeys: list = []
+    for leaf in (ps.storages if isinstance(ps, K["progress"].MultiProgressStorage) else [ps]):
+        if isinstance(leaf, K["progress"].AnnotationsProgressStorage):
+            pkeys.append(list(leaf.make_keys("create_fn", body=B(body))) + list(leaf.make_keys(leaf.touch_key, body=B(body))))
+    old = ds.fetch(body=B(body))
+    new = ds.build(body=B(body), extra_fields=[])
+    old = ps.clear(essence=old) if old is not None else None
+    new = ps.clear(essence=new)
+    return {"keys": keys, "progress_keys": pkeys, "old": old, "new": new, "diff": canon_items(K["diffs"].diff(old, new))}
+
+
+def eval_seq_case(K: dict, case: dict, out: Out) -> None:
+    rng = random.Random(case["oseed"])
+    objs = _seq_objects(rng)
+    ds, ps = build_diffbase(K, case["diffbase"]), build_progress(K, case["progress"])     # the ONE shared instance
+    mcfg = model_cfg(K, ds, ps)
+    leafm = mcfg["diffbase"]
+    replay = {"kind": "sequence", "diffbase": case["diffbase"], "progress": case["progress"], "order": case["order"],
+              "oseed": case["oseed"]}
+    handled: set[str] = set()
+    rs_user_changed: dict[str, bool] = {}
+    out.evals += 1
+    out.count("sequence_len", len(case["order"]))
+    out.count("sequence_first", case["order"][0])
+    B, P = K["bodies"].Body, K["patches"].Patch
+    for step, name in enumerate(case["order"]):
+        body = objs[name]
+        shared = _observe(K, ds, ps, body)
+        fresh = _observe(K, build_diffbase(K, case["diffbase"]), build_progress(K, case["progress"]), body)
+        rp = dict(replay, step=step, object=name, body=body, shared=shared, fresh=fresh, handled_before=sorted(handled))
+        out.count("sequence_object", name + ("" if name not in handled else " (again)"))
+        for what in ("keys", "progress_keys", "old", "diff"):
+            if not strict_eq(shared[what], fresh[what]):
+                out.fail("oracle", f"the {what} a shared storage gives for {name} differ from those of a fresh storage "
+                                   f"(state carried over from the objects served before)", rp, SIG_SEQ)
+                return
+        if name not in handled and shared["old"] is not None:
+            out.fail("oracle", f"a never-handled object ({name}) is not detected as a creation: old is not None", rp,
+                     {"site": "AnnotationsDiffBaseStorage.fetch", "shape": "never-handled object has a last-handled state"})
+            return
+        if name in handled and shared["diff"] and not (name == "rs-of-deploy" and rs_user_changed.get(name)):
+            out.fail("oracle", f"an unchanged, already handled object ({name}) shows an essential change", rp,
+                     {"site": "DiffBaseStorage.build/fetch", "shape": "own or copied-down annotations count as a change"})
+            return
+        out.ask("make_keys on a shared storage", ["C04.keys", mcfg["hashes"], leafm["v1"], leafm["prefix"], leafm["key"], body],
+                ["ok", shared["keys"]], rp)
+        out.ask("diffbase.build + progress.clear (shared storage)", ["C04.essence", mcfg, [], body], ["ok", shared["new"]], rp)
+        # the operator handles the object: progress record, last-handled state, touch — real writes
+        patch = P()
+        ps.store(key="create_fn", record={"started": "2020-01-01T00:00:00", "retries": 0, "success": True}, body=B(body), patch=patch)
+        ds.store(body=B(body), patch=patch, essence=copy.deepcopy(shared["new"]))
+        nb = merge_patch(body, json.loads(json.dumps(dict(patch))))
+        nb["metadata"]["resourceVersion"] = str(int(nb["metadata"]["resourceVersion"]) + 1)
+        objs[name] = nb
+        handled.add(name)
+        rs_user_changed.pop(name, None)
+        after = _observe(K, ds, ps, nb)
+        if after["diff"] or not strict_eq(after["new"], shared["new"]):
+            out.fail("oracle", f"the framework's own writes on {name} (shared storage) re-trigger handling", dict(rp, after=after),
+                     {"site": "DiffBaseStorage.build/fetch", "shape": "own writes visible with a shared storage"})
+            return
+        if name == "deploy":
+            # Kubernetes copies the Deployment's annotations down to its ReplicaSets. The user's own annotations
+            # are a real change of the ReplicaSet; the operator's annotations that come along must not matter.
+            d_anns = nb["metadata"].get("annotations", {})
+            d_user = body["metadata"].get("annotations", {})            # what the Deployment had before kopf wrote
+            rs_user = copy.deepcopy(objs["rs-of-deploy"])
+            if d_user:
+                rs_user["metadata"].setdefault("annotations", {}).update(d_user)
+            rs_full = copy.deepcopy(objs["rs-of-deploy"])
+            rs_full["metadata"].setdefault("annotations", {}).update(d_anns)
+            body_rs_before = objs["rs-of-deploy"]
+            ref = _observe(K, ds, ps, rs_user)
+            copied = _observe(K, ds, ps, rs_full)
+            objs["rs-of-deploy"] = rs_full
+            if d_user and not strict_eq(ref["new"], _observe(K, ds, ps, body_rs_before)["new"]):
+                rs_user_changed["rs-of-deploy"] = True
+            if not strict_eq(copied["new"], ref["new"]) or not strict_eq(copied["old"], ref["old"]):
+                out.fail("oracle", "the operator's annotations copied down from the Deployment change the ReplicaSet's essence/old",
+                         dict(rp, rs_reference=ref, rs_after=copied),
+                         {"site": "CollisionEvadingConvention.mark_key", "shape": "copied-down annotations visible on the ReplicaSet"})
+                return
+    out.keys.add(digest(["seq", case["diffbase"], case["progress"], case["order"]]))
+
+
+# ------------------------------------------------------------------------------------------------
 # shards, run, search, replay
 
 def run_shard(args: tuple) -> Out:
@@ -991,6 +1144,8 @@ def run_shard(args: tuple) -> Out:
         eval_diff_case(K, case, out, tags)
     for _ in range(n_ess):
         eval_ess_case(K, gen_ess_case(rng), out)
+    for _ in range(max(1, n_pairs // 25)):
+        eval_seq_case(K, gen_seq_case(rng), out)
     if not oracle_only:
         settle(out)
     out.requests, out.expect = [], []
@@ -1004,7 +1159,7 @@ def settle(out: Out) -> None:
     answers = None
     for attempt in (0, 1):
         try:
-            answers = leanio.Driver().ask(out.requests)
+            answers = leanio.Driver(["C04"]).ask(out.requests)
             break
         except leanio.LeanError as e:
             # the driver did not run at all (e.g. a concurrently edited Drv/All.lean whose new import is not
@@ -1080,6 +1235,8 @@ def eval_case(K: dict, case: dict, out: Out) -> None:
     elif case.get("kind") == "essence":
         eval_ess_case(K, {"diffbase": case["diffbase"], "progress": case["progress"], "extra": case.get("extra", []),
                           "body": case["body"], "wseed": case.get("wseed", 0), "writes": case.get("writes")}, out)
+    elif case.get("kind") == "sequence":
+        eval_seq_case(K, case, out)
     else:
         raise ValueError(f"unknown case kind {case.get('kind')!r}")
 
@@ -1123,7 +1280,7 @@ def search(ctx: Ctx, broken: list) -> None:
     out = Out()
     for b in broken:
         inp = b.replay.get("input") if isinstance(b.replay, dict) else None
-        if isinstance(inp, dict) and inp.get("kind") in ("diff", "essence"):
+        if isinstance(inp, dict) and inp.get("kind") in ("diff", "essence", "sequence"):
             try:
                 eval_case(K, inp, out)
             except Exception:  # noqa: BLE001
@@ -1150,7 +1307,7 @@ def replay(ctx: Ctx, data: dict) -> None:
         print("broken obligation(s):", sorted(set(data.get("what", []))))
     if isinstance(case, dict) and "input" in case and "kind" not in case:
         case = case["input"]
-    if not isinstance(case, dict) or case.get("kind") not in ("diff", "essence"):
+    if not isinstance(case, dict) or case.get("kind") not in ("diff", "essence", "sequence"):
         print("this replay file names a broken proof/tie obligation without a concrete input; re-run ./check C04 quick")
         ctx.tie_fail("broken obligation without input", data)
         return
